@@ -3,10 +3,13 @@
 
 package store
 
-import "os"
+import (
+	"bufio"
+	"os"
+)
 
 // verifPoint is a no-op unless the package is built with -tags verif.
 func verifPoint(point string, args ...interface{}) {}
 
-// verifWrapWriter is the identity unless the package is built with -tags verif.
-func verifWrapWriter(fd *os.File, path string) *os.File { return fd }
+// verifWrapBufio is the identity unless the package is built with -tags verif.
+func verifWrapBufio(w *bufio.Writer, fd *os.File, path string) *bufio.Writer { return w }
